@@ -1944,28 +1944,37 @@ type witness struct {
 	exports  *jv
 	spec     string
 	files    []string
-	imports  *jv      // "imports" of the root package (files then are relative to the root)
-	kinds    []string // default: require and import
+	imports  *jv               // "imports" of the root package (files then are relative to the root)
+	kinds    []string          // default: require and import
+	raw      map[string]string // extra files with literal contents
+	importer string            // default main.js
 }
 
 var witnesses = []witness{
-	{"pattern-base-equals-subpath", "pattern-base", jobj("./foo*", "./lib/foo*.js"), "pkg/foo", []string{"lib/foo.js"}, nil, nil},
-	{"pattern-base-shadows-shorter-pattern", "pattern-base", jobj("./foo*", "./lib/foo*.js", "./fo*", "./x/*.js"), "pkg/foo", []string{"lib/foo.js", "x/o.js"}, nil, nil},
-	{"invalid-segment-uppercase-node-modules", "segment-rules", jobj("./x", "./lib/NODE_MODULES/x.js"), "pkg/x", []string{"lib/NODE_MODULES/x.js"}, nil, nil},
-	{"invalid-segment-percent-encoded-dotdot-target", "segment-rules", jobj("./a", "./lib/%2e%2e/x.js"), "pkg/a", []string{"x.js", "lib/a.js"}, nil, nil},
-	{"invalid-segment-first-segment-of-pattern-match", "segment-rules", jobj("./*", "./lib/*"), "pkg/../secret.js", []string{"secret.js", "lib/a.js"}, nil, nil},
-	{"invalid-segment-node-modules-pattern-match", "segment-rules", jobj("./*", "./lib/*"), "pkg/node_modules/s.js", []string{"lib/node_modules/s.js"}, nil, nil},
-	{"duplicate-key-first-wins", "dup-keys", jobj("./a", "./x.js", "./a", "./y.js"), "pkg/a", []string{"x.js", "y.js"}, nil, nil},
-	{"nested-object-mixed-keys", "nested-mixed-keys", jobj("./a", jobj("node", "./x.js", "./b", "./y.js")), "pkg/a", []string{"x.js", "y.js"}, nil, nil},
-	{"numeric-condition-key", "index-keys", jobj("./a", jobj("0", "./x.js", "default", "./y.js")), "pkg/a", []string{"x.js", "y.js"}, nil, nil},
-	{"backslash-in-target", "url-syntax", jobj("./a", "./lib\\x.js"), "pkg/a", []string{"lib/x.js"}, nil, nil},
-	{"query-in-target", "url-syntax", jobj("./a", "./lib/x.js?q"), "pkg/a", []string{"lib/x.js"}, nil, nil},
-	{"imports-specifier-hash-slash", "hash-slash", nil, "#/a", []string{"a.js"}, jobj("#/*", "./*.js"), nil},
-	{"imports-target-is-url", "url-target", nil, "#fs", nil, jobj("#fs", "node:fs"), nil},
-	{"star-in-specifier", "star-in-specifier", jobj("./index/*/b", "./index/index.mjs"), "pkg/index/*/b", []string{"index/index.mjs"}, nil, nil},
-	{"case-colliding-directory-entries", "case-colliding-entries", jobj("./x", "./index/A"), "pkg/x", []string{"index/A", "index/a/b.js"}, nil, nil},
-	{"percent-encoded-subpath-no-exports", "percent-encoded-relative-specifier", nil, "pkgn/lib/%61.js", []string{"node_modules/pkgn/lib/a.js", "node_modules/pkgn/package.json"}, nil, []string{"import"}},
-	{"percent-encoded-relative-import", "percent-encoded-relative-specifier", nil, "./%75til.js", []string{"util.js"}, nil, []string{"import"}},
+	{"pattern-base-equals-subpath", "pattern-base", jobj("./foo*", "./lib/foo*.js"), "pkg/foo", []string{"lib/foo.js"}, nil, nil, nil, ""},
+	{"pattern-base-shadows-shorter-pattern", "pattern-base", jobj("./foo*", "./lib/foo*.js", "./fo*", "./x/*.js"), "pkg/foo", []string{"lib/foo.js", "x/o.js"}, nil, nil, nil, ""},
+	{"invalid-segment-uppercase-node-modules", "segment-rules", jobj("./x", "./lib/NODE_MODULES/x.js"), "pkg/x", []string{"lib/NODE_MODULES/x.js"}, nil, nil, nil, ""},
+	{"invalid-segment-percent-encoded-dotdot-target", "segment-rules", jobj("./a", "./lib/%2e%2e/x.js"), "pkg/a", []string{"x.js", "lib/a.js"}, nil, nil, nil, ""},
+	{"invalid-segment-first-segment-of-pattern-match", "segment-rules", jobj("./*", "./lib/*"), "pkg/../secret.js", []string{"secret.js", "lib/a.js"}, nil, nil, nil, ""},
+	{"invalid-segment-node-modules-pattern-match", "segment-rules", jobj("./*", "./lib/*"), "pkg/node_modules/s.js", []string{"lib/node_modules/s.js"}, nil, nil, nil, ""},
+	{"duplicate-key-first-wins", "dup-keys", jobj("./a", "./x.js", "./a", "./y.js"), "pkg/a", []string{"x.js", "y.js"}, nil, nil, nil, ""},
+	{"nested-object-mixed-keys", "nested-mixed-keys", jobj("./a", jobj("node", "./x.js", "./b", "./y.js")), "pkg/a", []string{"x.js", "y.js"}, nil, nil, nil, ""},
+	{"numeric-condition-key", "index-keys", jobj("./a", jobj("0", "./x.js", "default", "./y.js")), "pkg/a", []string{"x.js", "y.js"}, nil, nil, nil, ""},
+	{"backslash-in-target", "url-syntax", jobj("./a", "./lib\\x.js"), "pkg/a", []string{"lib/x.js"}, nil, nil, nil, ""},
+	{"query-in-target", "url-syntax", jobj("./a", "./lib/x.js?q"), "pkg/a", []string{"lib/x.js"}, nil, nil, nil, ""},
+	{"imports-specifier-hash-slash", "hash-slash", nil, "#/a", []string{"a.js"}, jobj("#/*", "./*.js"), nil, nil, ""},
+	{"imports-target-is-url", "url-target", nil, "#fs", nil, jobj("#fs", "node:fs"), nil, nil, ""},
+	{"star-in-specifier", "star-in-specifier", jobj("./index/*/b", "./index/index.mjs"), "pkg/index/*/b", []string{"index/index.mjs"}, nil, nil, nil, ""},
+	{"case-colliding-directory-entries", "case-colliding-entries", jobj("./x", "./index/A"), "pkg/x", []string{"index/A", "index/a/b.js"}, nil, nil, nil, ""},
+	{scenario: "package-scope-stops-at-node-modules", what: "scope-boundary", spec: "rootpkg", importer: "node_modules/nopkg/index.js",
+		raw: map[string]string{
+			"package.json":                      `{"name":"rootpkg","exports":{".":"./own.js"}}`,
+			"own.js":                            "module.exports='own'\n",
+			"node_modules/rootpkg/package.json": `{"name":"rootpkg","exports":{".":"./copy.js"}}`,
+			"node_modules/rootpkg/copy.js":      "module.exports='copy'\n",
+			"node_modules/nopkg/index.js":       "module.exports=1\n"}},
+	{"percent-encoded-subpath-no-exports", "percent-encoded-relative-specifier", nil, "pkgn/lib/%61.js", []string{"node_modules/pkgn/lib/a.js", "node_modules/pkgn/package.json"}, nil, []string{"import"}, nil, ""},
+	{"percent-encoded-relative-import", "percent-encoded-relative-specifier", nil, "./%75til.js", []string{"util.js"}, nil, []string{"import"}, nil, ""},
 }
 
 func textOrNone(j *jv) string {
@@ -1997,6 +2006,9 @@ func runWitnesses(tmp string, st *Stats) {
 			t.files["package.json"] = `{"name":"rootw","imports":` + w.imports.text() + "}"
 		}
 		t.file("main.js")
+		for f, c := range w.raw {
+			t.files[f] = c
+		}
 		t.materialise()
 		var cases []glueCase
 		kinds := w.kinds
@@ -2004,7 +2016,11 @@ func runWitnesses(tmp string, st *Stats) {
 			kinds = []string{"require", "import"}
 		}
 		for _, k := range kinds {
-			cases = append(cases, glueCase{Importer: filepath.Join(root, "main.js"), Spec: w.spec, Kind: k})
+			imp := "main.js"
+			if w.importer != "" {
+				imp = w.importer
+			}
+			cases = append(cases, glueCase{Importer: filepath.Join(root, imp), Spec: w.spec, Kind: k})
 		}
 		nres, err := nodeGlue(root, cases)
 		if err != nil || len(nres) != len(cases) {
@@ -2055,7 +2071,7 @@ func runC11(seed uint64, n int, tier string, outDir string) []*Stats {
 	if tier == "thorough" {
 		gn = n / 2
 	}
-	maxWalk := 140
+	maxWalk := 100
 	if tier == "thorough" {
 		maxWalk = 0
 	}
